@@ -23,9 +23,9 @@ Section WF.
 
   Notation set_value := (set_value F lvalidate lto_python ldefault lcallable lflag vrun).
   Notation load_keys := (load_keys F lvalidate lto_python ldefault lcallable lflag vrun).
-  Notation build_cfg := (build_cfg F ldefault lcallable).
-  Notation build_val := (build_val F ldefault lcallable).
-  Notation build_fields := (build_fields F ldefault lcallable).
+  Notation build_cfg := (build_cfg F lvalidate lto_python ldefault lcallable lflag vrun).
+  Notation build_val := (build_val F lvalidate lto_python ldefault lcallable lflag vrun).
+  Notation build_fields := (build_fields F lvalidate lto_python ldefault lcallable lflag vrun).
   Notation validate_raise := (validate_raise F lvalidate lflag vrun).
   Notation set_leaf := (set_leaf F lvalidate).
   Notation cfg_items := (cfg_items F lvalidate lto_python ldefault lcallable lflag vrun).
@@ -39,8 +39,8 @@ Section WF.
     match nd, v with
     | NLeaf f, VLeaf x => lmeets f x
     | NSub _ _ fs, VCfg c => wf_cfg fs c
-    | NCfgList _ _ _, VLeaf PNone => True
-    | NCfgList _ _ fs, VList l => (fix go (l : list cfg) : Prop := match l with [] => True | it :: r => wf_cfg fs it /\ go r end) l
+    | NCfgList _ _ _ _, VLeaf PNone => True
+    | NCfgList _ _ fs _, VList l => (fix go (l : list cfg) : Prop := match l with [] => True | it :: r => wf_cfg fs it /\ go r end) l
     | _, _ => False
     end
   with wf_cfg (fs : list (str * node F)) (c : cfg) {struct c} : Prop :=
@@ -66,9 +66,9 @@ Section WF.
       + intros [H1 H2]. constructor; [exact H1 | apply IH; exact H2].
       + intro H. inversion H; subst. split; [exact H2 | apply IH; exact H3].
   Qed.
-  Lemma wf_val_list : forall r vs fs l, wf_val (NCfgList r vs fs) (VList l) <-> wf_items fs l.
+  Lemma wf_val_list : forall r vs fs fsq l, wf_val (NCfgList r vs fs fsq) (VList l) <-> wf_items fs l.
   Proof.
-    intros r vs fs l. cbn [wf_val]. unfold wf_items. induction l as [|it l IH].
+    intros r vs fs fsq l. cbn [wf_val]. unfold wf_items. induction l as [|it l IH].
     - split; intro; [constructor | exact I].
     - split.
       + intros [H1 H2]. constructor; [exact H1 | apply IH; exact H2].
@@ -88,12 +88,16 @@ Section WF.
   Lemma wf_store_dyn : forall fs c k v, wf_cfg fs c -> wf_slot fs k v -> wf_cfg fs (store_dyn c k v).
   Proof. intros fs [i d df dy] k v H Hv. unfold store_dyn. apply wf_cfg_data. apply wf_cfg_data in H. apply wf_data_dset; assumption. Qed.
 
-  (* ---- schemas come from Python dicts: keys are distinct at every level ---- *)
+  (* ---- schemas come from Python dicts: keys are distinct at every level; and the premise of C01 for lists of
+     configurations with declared default items -- the default is itself valid: building it (every map loaded into a fresh
+     item and validated) never fails, in whatever world; the code would raise from the constructor otherwise ---- *)
   Fixpoint ok_node (nd : node F) : Prop :=
     match nd with
     | NLeaf _ => True
     | NSub _ _ fs => NoDup (map fst fs) /\ (fix go (fs : list (str * node F)) : Prop := match fs with [] => True | (k, n) :: r => ok_node n /\ go r end) fs
-    | NCfgList _ _ fs => NoDup (map fst fs) /\ (fix go (fs : list (str * node F)) : Prop := match fs with [] => True | (k, n) :: r => ok_node n /\ go r end) fs
+    | NCfgList r vs fs dfl =>
+        (NoDup (map fst fs) /\ (fix go (fs : list (str * node F)) : Prop := match fs with [] => True | (k, n) :: r => ok_node n /\ go r end) fs)
+        /\ (forall w, snd (build_val w (NCfgList r vs fs dfl)) <> VLeaf default_failed)
     end.
   Definition ok_fields (fs : list (str * node F)) : Prop := NoDup (map fst fs) /\ Forall (fun kn => ok_node (snd kn)) fs.
   Lemma ok_node_sub : forall d vs fs, ok_node (NSub d vs fs) <-> ok_fields fs.
@@ -102,12 +106,14 @@ Section WF.
     - induction fs as [|[k n] fs IH]; [constructor|]. destruct H2 as [H2 H3]. constructor; [exact H2 | apply IH; exact H3].
     - induction fs as [|[k n] fs IH]; [exact I|]. inversion H2; subst. split; [exact H1 | apply IH; exact H3].
   Qed.
-  Lemma ok_node_list : forall r vs fs, ok_node (NCfgList r vs fs) <-> ok_fields fs.
+  Lemma ok_node_list : forall r vs fs fsq, ok_node (NCfgList r vs fs fsq) -> ok_fields fs.
   Proof.
-    intros. cbn [ok_node]. unfold ok_fields. split; intros [H1 H2]; (split; [exact H1|]); clear H1.
-    - induction fs as [|[k n] fs IH]; [constructor|]. destruct H2 as [H2 H3]. constructor; [exact H2 | apply IH; exact H3].
-    - induction fs as [|[k n] fs IH]; [exact I|]. inversion H2; subst. split; [exact H1 | apply IH; exact H3].
+    intros r vs fs fsq. cbn [ok_node]. unfold ok_fields. intros [[H1 H2] _]. split; [exact H1|]. clear H1.
+    induction fs as [|[k n] fs IH]; [constructor|]. destruct H2 as [H2 H3]. constructor; [exact H2 | apply IH; exact H3].
   Qed.
+  Lemma ok_node_list_default : forall r vs fs fsq, ok_node (NCfgList r vs fs fsq) ->
+    forall w, snd (build_val w (NCfgList r vs fs fsq)) <> VLeaf default_failed.
+  Proof. intros r vs fs fsq. cbn [ok_node]. intros [_ H]. exact H. Qed.
   Lemma fget_in : forall k nd fs, fget F k fs = Some nd -> In (k, nd) fs.
   Proof.
     unfold fget. induction fs as [|[k' n'] fs IH]; cbn [assoc]; intro H; [discriminate|].
@@ -123,6 +129,18 @@ Section WF.
   Qed.
   Lemma ok_fields_in : forall fs k nd, ok_fields fs -> In (k, nd) fs -> ok_node nd.
   Proof. intros fs k nd [_ H] Hin. rewrite Forall_forall in H. apply (H (k, nd) Hin). Qed.
+
+  (* loading the map of a default item stores validated values only *)
+  Lemma flat_load_wf : forall fs d it it' o, wf_cfg fs it -> flat_load F lvalidate lto_python d it fs = (it', o) -> wf_cfg fs it'.
+  Proof.
+    intros fs. induction d as [|[kk xi] d IH]; intros it it' o Hw H; cbn [Config.flat_load] in H.
+    - inversion H; subst. exact Hw.
+    - destruct kk; try (inversion H; subst; exact Hw).
+      destruct (fget F s fs) as [[f|d1 v1 f1|r1 v1 f1 q1]|] eqn:Ef; try (inversion H; subst; exact Hw).
+      destruct (lto_python f xi); try (inversion H; subst; exact Hw).
+      unfold Config.set_leaf in H. destruct (lvalidate f a) eqn:Ev; try (inversion H; subst; exact Hw).
+      eapply IH; [|exact H]. apply wf_store; [exact Hw|]. unfold wf_slot. rewrite Ef. cbn [wf_val]. eapply validate_sound; eauto.
+  Qed.
 
   (* ---- a freshly built configuration is well-formed (induction on the size of the schema) ---- *)
   Lemma build_val_sub : forall w d vs fs,
@@ -148,7 +166,7 @@ Section WF.
   Proof.
     induction n as [|n IH]; intros nd Hn Hok w.
     - destruct nd; cbn [nsize] in Hn; lia.
-    - destruct nd as [f|dyn vs fs|req vs fs].
+    - destruct nd as [f|dyn vs fs|req vs fs fsq].
       + cbn [Config.build_val]. unfold eval_default. destruct (lcallable f); cbn [snd wf_val]; apply defaults_valid.
       + rewrite nsize_sub in Hn. rewrite build_val_sub. cbn zeta.
         destruct (build_fields {| w_next := w_next w + 1; w_calls := w_calls w |} fs) as [w' dd] eqn:Eb. cbn [snd wf_val].
@@ -157,7 +175,29 @@ Section WF.
         specialize (Hb (fun k nd Hin => conj (in_fget k nd fs (proj1 Hok) Hin) (ok_fields_in fs k nd Hok Hin))
                        {| w_next := w_next w + 1; w_calls := w_calls w |}).
         rewrite Eb in Hb. exact Hb.
-      + cbn [Config.build_val snd wf_val]. exact I.
+      + destruct fsq as [[callable maps]|]; [|cbn [Config.build_val snd wf_val]; exact I].
+        pose proof (ok_node_list_default _ _ _ _ Hok w) as Hnf. rewrite build_val_list in Hnf |- *.
+        change (nsize F (NCfgList req vs fs (Some (callable, maps)))) with (nsize F (NSub false vs fs)) in Hn. rewrite nsize_sub in Hn.
+        apply ok_node_list in Hok.
+        destruct (build_items F lvalidate lto_python ldefault lcallable lflag vrun vs fs maps (bump_calls callable w) []) as [w1 [l|]] eqn:Eb;
+          cbn [snd] in *; [|exfalso; apply Hnf; reflexivity].
+        apply wf_val_list. clear Hnf.
+        assert (Hgen : forall ts w0 acc w2 l2, wf_items fs acc ->
+                  build_items F lvalidate lto_python ldefault lcallable lflag vrun vs fs ts w0 acc = (w2, Some l2) -> wf_items fs l2).
+        { induction ts as [|a ts IHt]; intros w0 acc w2 l2 Hacc Hb; cbn [build_items] in Hb.
+          - inversion Hb; subst. unfold wf_items. apply Forall_rev. exact Hacc.
+          - destruct a; try discriminate.
+            destruct (build_fields {| w_next := w_next w0 + 1; w_calls := w_calls w0 |} fs) as [w3 dd] eqn:Ef.
+            destruct (flat_load F lvalidate lto_python d (Cfg (w_next w0) dd (map fst fs) []) fs) as [it1 o] eqn:El.
+            destruct o; try discriminate.
+            destruct (validate_raise (NSub false vs fs) [] (VCfg it1)); try discriminate.
+            eapply IHt; [|exact Hb]. constructor; [|exact Hacc].
+            eapply flat_load_wf; [|exact El]. apply wf_cfg_data.
+            pose proof (build_fields_wf n IH fs fs ltac:(lia)) as Hbf.
+            specialize (Hbf (fun k nd Hin => conj (in_fget k nd fs (proj1 Hok) Hin) (ok_fields_in fs k nd Hok Hin))
+                            {| w_next := w_next w0 + 1; w_calls := w_calls w0 |}).
+            rewrite Ef in Hbf. exact Hbf. }
+        eapply Hgen; [|exact Eb]. constructor.
   Qed.
 
   Theorem build_cfg_wf : forall fs w, ok_fields fs -> wf_cfg fs (snd (build_cfg w fs)).
@@ -206,7 +246,7 @@ Section WF.
       destruct kk; try (inversion H; subst; exact Hw).
       match type of H with (match ?t with _ => _ end) = _ => destruct t as [[w1 c1] o1] eqn:E end.
       assert (Hw1 : wf_cfg fs c1).
-      { destruct (fget F s fs) as [[f|d1 v1 f1|req v1 f1]|] eqn:Ef.
+      { destruct (fget F s fs) as [[f|d1 v1 f1|req v1 f1 f1q]|] eqn:Ef.
         - destruct (smem s (c_dyn c)); [inversion E; subst; exact Hw|].
           destruct (lto_python f xi); try (inversion E; subst; exact Hw).
           destruct (set_leaf pre c f s a) as [c2 o2] eqn:El. inversion E; subst. eapply set_leaf_wf; eauto.
@@ -234,12 +274,12 @@ Section WF.
       eapply IH; [lia | | exact H]. constructor; assumption.
   Qed.
 
-  Lemma list_finish_wf : forall fs c k p req r w' c' o vs fs',
-    fget F k fs = Some (NCfgList req vs fs') -> wf_cfg fs c ->
+  Lemma list_finish_wf : forall fs c k p req r w' c' o vs fs' fs'q,
+    fget F k fs = Some (NCfgList req vs fs' fs'q) -> wf_cfg fs c ->
     (forall w1 l1 o1, r = (w1, l1, o1) -> wf_items fs' l1) ->
     list_finish c k p req r = (w', c', o) -> wf_cfg fs c'.
   Proof.
-    unfold list_finish. intros fs c k p req [[w1 l] o1] w' c' o vs fs' Hf Hw Hr H.
+    unfold list_finish. intros fs c k p req [[w1 l] o1] w' c' o vs fs' fs'q Hf Hw Hr H.
     destruct o1; try (inversion H; subst; exact Hw).
     destruct (req && is_nil l); inversion H; subst; [exact Hw|].
     apply wf_store; [exact Hw|]. unfold wf_slot. rewrite Hf. apply wf_val_list. eapply Hr; reflexivity.
@@ -248,7 +288,7 @@ Section WF.
   Lemma WSV_step : forall n, WLK n -> WSV (S n).
   Proof.
     intros n HLK x Hx w pre c fs dyn k rl w' c' o Hok Hw H. rewrite set_value_unfold in H. unfold set_value_body in H.
-    destruct (fget F k fs) as [[f|dyn' vs fs'|req vs fs']|] eqn:Ef.
+    destruct (fget F k fs) as [[f|dyn' vs fs'|req vs fs' fs'q]|] eqn:Ef.
     - destruct (set_leaf pre c f k x) as [c1 o1] eqn:E. inversion H; subst. eapply set_leaf_wf; eauto.
     - assert (Hok' : ok_fields fs') by (apply (ok_node_sub dyn' vs); eapply ok_fields_get; eauto).
       destruct x; try (inversion H; subst; exact Hw).
@@ -260,7 +300,7 @@ Section WF.
       destruct o1; try (inversion H; subst; exact Hw).
       destruct (validate_raise (NSub dyn' vs fs') (path_join pre k) (VCfg sub1)); inversion H; subst; try exact Hw.
       apply wf_store; [exact Hw|]. unfold wf_slot. rewrite Ef. cbn [wf_val]. exact Hs.
-    - assert (Hok' : ok_fields fs') by (apply (ok_node_list req vs); eapply ok_fields_get; eauto).
+    - assert (Hok' : ok_fields fs') by (eapply (ok_node_list req vs); eapply ok_fields_get; eauto).
       assert (Hitems : forall l, (lsize l <= n)%nat -> forall w1 l1 o1, cfg_items (path_join pre k) vs fs' l 0 w [] = (w1, l1, o1) -> wf_items fs' l1).
       { intros l Hl w1 l1 o1 Hc. eapply cfg_items_wf; [exact HLK | exact Hok' | exact Hl | constructor | exact Hc]. }
       assert (Hnil : forall (w0 w1 : world) l1 (o1 : oc), (w0, @nil cfg, OOk) = (w1, l1, o1) -> wf_items fs' l1) by (intros w0 w1 l1 o1 Hq; inversion Hq; subst; apply Forall_nil).
@@ -338,7 +378,7 @@ Section WF.
     match o with
     | CSetObj k src => match fget F k fs with Some (NSub _ _ fs') => wf_cfg fs' src | _ => True end
     | CAppendObj k src | CSetIdxObj k _ src | CInsertObj k _ src =>
-        match fget F k fs with Some (NCfgList _ _ fs') => wf_cfg fs' src | _ => True end
+        match fget F k fs with Some (NCfgList _ _ fs' _) => wf_cfg fs' src | _ => True end
     | _ => True
     end.
   (* the fields of the configuration a path addresses, read off the schema *)
@@ -346,7 +386,7 @@ Section WF.
     match ps with
     | [] => Some fs
     | PKey k :: r => match fget F k fs with Some (NSub _ _ fs') => fields_at r fs' | _ => None end
-    | PItem k _ :: r => match fget F k fs with Some (NCfgList _ _ fs') => fields_at r fs' | _ => None end
+    | PItem k _ :: r => match fget F k fs with Some (NCfgList _ _ fs' _) => fields_at r fs' | _ => None end
     end.
   Definition obj_ok (fs : list (str * node F)) (ps : list pstep) (o : cop) : Prop :=
     match fields_at ps fs with Some fs1 => obj_ok_at fs1 o | None => True end.
@@ -370,9 +410,9 @@ Section WF.
         pose proof (build_val_wf (nsize F nd) nd (le_n _) (ok_fields_get fs k nd Hok Ef) w) as Hv. rewrite Ev in Hv. exact Hv.
       + destruct (smem k (c_dyn c)); [|inversion H; subst; exact Hw]. destruct c as [i d df dy]. inversion H; subst.
         apply wf_cfg_data. apply wf_cfg_data in Hw. apply wf_data_dset; [exact Hw|]. unfold wf_slot. rewrite Ef. exact I.
-    - destruct (fget F k fs) as [[f|d1 v1 f1|req vs' fs']|] eqn:Ef; try (inversion H; subst; exact Hw).
+    - destruct (fget F k fs) as [[f|d1 v1 f1|req vs' fs' fs'q]|] eqn:Ef; try (inversion H; subst; exact Hw).
       destruct (dget k (c_data c)) as [[v|c0|l]|] eqn:Eg; try (inversion H; subst; exact Hw).
-      assert (Hok' : ok_fields fs') by (apply (ok_node_list req vs'); eapply ok_fields_get; eauto).
+      assert (Hok' : ok_fields fs') by (eapply (ok_node_list req vs'); eapply ok_fields_get; eauto).
       destruct (make_item w (path_join pre k) (N.of_nat (length l)) vs' fs' x) as [[w1 it] o1] eqn:E.
       destruct it as [it|]; [|inversion H; subst; exact Hw].
       destruct o1; try (inversion H; subst; exact Hw). destruct c as [i d df dy]. inversion H; subst.
@@ -380,9 +420,9 @@ Section WF.
       apply wf_val_list. apply Forall_app. split.
       * pose proof (wf_cfg_get _ _ _ _ Hw0 Eg) as Hl. unfold wf_slot in Hl. rewrite Ef in Hl. apply wf_val_list in Hl. exact Hl.
       * constructor; [eapply make_item_wf; eauto | constructor].
-    - destruct (fget F k fs) as [[f|d1 v1 f1|req vs' fs']|] eqn:Ef; try (inversion H; subst; exact Hw).
+    - destruct (fget F k fs) as [[f|d1 v1 f1|req vs' fs' fs'q]|] eqn:Ef; try (inversion H; subst; exact Hw).
       destruct (dget k (c_data c)) as [[v|c0|l]|] eqn:Eg; try (inversion H; subst; exact Hw).
-      assert (Hok' : ok_fields fs') by (apply (ok_node_list req vs'); eapply ok_fields_get; eauto).
+      assert (Hok' : ok_fields fs') by (eapply (ok_node_list req vs'); eapply ok_fields_get; eauto).
       destruct (make_item w (path_join pre k) (N.of_nat (length l)) vs' fs' x) as [[w1 it] o1] eqn:E.
       destruct it as [it|]; [|inversion H; subst; exact Hw].
       destruct o1; try (inversion H; subst; exact Hw).
@@ -397,9 +437,9 @@ Section WF.
       destruct (load_keys d w pre c fs dyn) as [[w1 c1] o1] eqn:E.
       assert (Hc1 : wf_cfg fs c1) by (eapply load_keys_wf; eauto).
       destruct o1; inversion H; subst; exact Hc1.
-    - destruct (fget F k fs) as [[f|d1 v1 f1|req vs' fs']|] eqn:Ef; try (inversion H; subst; exact Hw).
+    - destruct (fget F k fs) as [[f|d1 v1 f1|req vs' fs' fs'q]|] eqn:Ef; try (inversion H; subst; exact Hw).
       destruct (dget k (c_data c)) as [[v|c0|l]|] eqn:Eg; try (inversion H; subst; exact Hw).
-      assert (Hok' : ok_fields fs') by (apply (ok_node_list req vs'); eapply ok_fields_get; eauto).
+      assert (Hok' : ok_fields fs') by (eapply (ok_node_list req vs'); eapply ok_fields_get; eauto).
       destruct (make_item w (path_join pre k) (N.of_nat (length l)) vs' fs' x) as [[w1 it] o1] eqn:E.
       destruct it as [it|]; [|inversion H; subst; exact Hw].
       destruct o1; try (inversion H; subst; exact Hw). destruct c as [i0 d df dy]. inversion H; subst.
@@ -409,13 +449,13 @@ Section WF.
       unfold wf_items in *. apply Forall_app. split; [apply Forall_firstn'; exact Hl|].
       constructor; [eapply make_item_wf; eauto | apply Forall_skipn'; exact Hl].
     - (* CSetObj *)
-      destruct (fget F k fs) as [[f|d1 v1 f1|req vs' fs']|] eqn:Ef.
+      destruct (fget F k fs) as [[f|d1 v1 f1|req vs' fs' fs'q]|] eqn:Ef.
       + destruct (lvalidate f cfg_object); inversion H; subst; exact Hw.
       + inversion H; subst. apply wf_store; [exact Hw|]. unfold wf_slot. rewrite Ef. cbn [wf_val]. exact Hobj.
       + inversion H; subst. exact Hw.
       + destruct dyn; inversion H; subst; exact Hw.
     - (* CAppendObj *)
-      destruct (fget F k fs) as [[f|d1 v1 f1|req vs' fs']|] eqn:Ef; try (inversion H; subst; exact Hw).
+      destruct (fget F k fs) as [[f|d1 v1 f1|req vs' fs' fs'q]|] eqn:Ef; try (inversion H; subst; exact Hw).
       destruct (dget k (c_data c)) as [[v|c0|l]|] eqn:Eg; try (inversion H; subst; exact Hw).
       destruct (obj_item F lvalidate lflag vrun (path_join pre k) (N.of_nat (length l)) vs' fs' src); try (inversion H; subst; exact Hw).
       destruct c as [i d df dy]. inversion H; subst.
@@ -424,7 +464,7 @@ Section WF.
       * pose proof (wf_cfg_get _ _ _ _ Hw0 Eg) as Hl. unfold wf_slot in Hl. rewrite Ef in Hl. apply wf_val_list in Hl. exact Hl.
       * constructor; [exact Hobj | constructor].
     - (* CSetIdxObj *)
-      destruct (fget F k fs) as [[f|d1 v1 f1|req vs' fs']|] eqn:Ef; try (inversion H; subst; exact Hw).
+      destruct (fget F k fs) as [[f|d1 v1 f1|req vs' fs' fs'q]|] eqn:Ef; try (inversion H; subst; exact Hw).
       destruct (dget k (c_data c)) as [[v|c0|l]|] eqn:Eg; try (inversion H; subst; exact Hw).
       destruct (obj_item F lvalidate lflag vrun (path_join pre k) (N.of_nat (length l)) vs' fs' src); try (inversion H; subst; exact Hw).
       destruct (i <? length l)%nat; [|inversion H; subst; exact Hw]. destruct c as [i0 d df dy]. inversion H; subst.
@@ -432,7 +472,7 @@ Section WF.
       apply wf_val_list. apply wf_items_set_nth; [|exact Hobj].
       pose proof (wf_cfg_get _ _ _ _ Hw0 Eg) as Hl. unfold wf_slot in Hl. rewrite Ef in Hl. apply wf_val_list in Hl. exact Hl.
     - (* CInsertObj *)
-      destruct (fget F k fs) as [[f|d1 v1 f1|req vs' fs']|] eqn:Ef; try (inversion H; subst; exact Hw).
+      destruct (fget F k fs) as [[f|d1 v1 f1|req vs' fs' fs'q]|] eqn:Ef; try (inversion H; subst; exact Hw).
       destruct (dget k (c_data c)) as [[v|c0|l]|] eqn:Eg; try (inversion H; subst; exact Hw).
       destruct (obj_item F lvalidate lflag vrun (path_join pre k) (N.of_nat (length l)) vs' fs' src); try (inversion H; subst; exact Hw).
       destruct c as [i0 d df dy]. inversion H; subst.
@@ -450,18 +490,18 @@ Section WF.
     induction ps as [|[k|k i] ps IH]; intros o w pre c dyn vs fs w' c' oc1 Hok Hw Hobj H; cbn [Config.at_path] in H;
       unfold obj_ok in Hobj; cbn [fields_at] in Hobj.
     - eapply apply_cop_wf; eauto.
-    - destruct (fget F k fs) as [[f|dyn' vs' fs'|req vs' fs']|] eqn:Ef; try (inversion H; subst; exact Hw).
+    - destruct (fget F k fs) as [[f|dyn' vs' fs'|req vs' fs' fs'q]|] eqn:Ef; try (inversion H; subst; exact Hw).
       destruct (dget k (c_data c)) as [[v|sub|l]|] eqn:Eg; try (inversion H; subst; exact Hw).
       destruct (at_path ps w (path_join pre k) sub dyn' vs' fs' o) as [[w1 sub'] o1] eqn:E.
       assert (Hok' : ok_fields fs') by (apply (ok_node_sub dyn' vs'); eapply ok_fields_get; eauto).
       pose proof (wf_cfg_get _ _ _ _ Hw Eg) as Hs. unfold wf_slot in Hs. rewrite Ef in Hs. cbn [wf_val] in Hs.
       apply IH in E; [| exact Hok' | exact Hs | exact Hobj]. destruct c as [i0 d df dy]. inversion H; subst.
       apply wf_cfg_data. apply wf_cfg_data in Hw. apply wf_data_dset; [exact Hw|]. unfold wf_slot. rewrite Ef. exact E.
-    - destruct (fget F k fs) as [[f|dyn' vs' fs'|req vs' fs']|] eqn:Ef; try (inversion H; subst; exact Hw).
+    - destruct (fget F k fs) as [[f|dyn' vs' fs'|req vs' fs' fs'q]|] eqn:Ef; try (inversion H; subst; exact Hw).
       destruct (dget k (c_data c)) as [[v|sub|l]|] eqn:Eg; try (inversion H; subst; exact Hw).
       destruct (nth_error l i) as [it|] eqn:En; [|inversion H; subst; exact Hw].
       destruct (at_path ps w (path_index (path_join pre k) (N.of_nat i)) it false vs' fs' o) as [[w1 it'] o1] eqn:E.
-      assert (Hok' : ok_fields fs') by (apply (ok_node_list req vs'); eapply ok_fields_get; eauto).
+      assert (Hok' : ok_fields fs') by (eapply (ok_node_list req vs'); eapply ok_fields_get; eauto).
       pose proof (wf_cfg_get _ _ _ _ Hw Eg) as Hl. unfold wf_slot in Hl. rewrite Ef in Hl. apply wf_val_list in Hl.
       apply IH in E; [| exact Hok' | eapply wf_items_nth; eauto | exact Hobj]. destruct c as [i0 d df dy]. inversion H; subst.
       apply wf_cfg_data. apply wf_cfg_data in Hw. apply wf_data_dset; [exact Hw|]. unfold wf_slot. rewrite Ef.
@@ -518,17 +558,17 @@ Section WF.
   Proof.
     induction ps as [|[k|k i] ps IH]; intros fs fs1 Hok H; cbn [fields_at] in H.
     - inversion H; subst. exact Hok.
-    - destruct (fget F k fs) as [[f|d' vs' fs'|r' vs' fs']|] eqn:Ef; try discriminate.
+    - destruct (fget F k fs) as [[f|d' vs' fs'|r' vs' fs' fs'q]|] eqn:Ef; try discriminate.
       eapply IH; [|exact H]. apply (ok_node_sub d' vs'). eapply ok_fields_get; eauto.
-    - destruct (fget F k fs) as [[f|d' vs' fs'|r' vs' fs']|] eqn:Ef; try discriminate.
-      eapply IH; [|exact H]. apply (ok_node_list r' vs'). eapply ok_fields_get; eauto.
+    - destruct (fget F k fs) as [[f|d' vs' fs'|r' vs' fs' fs'q]|] eqn:Ef; try discriminate.
+      eapply IH; [|exact H]. eapply (ok_node_list r' vs'). eapply ok_fields_get; eauto.
   Qed.
 
   (* the fields an object must fit, by route: a sub-configuration slot for an assignment, the item schema for the list routes *)
   Definition slot_fields (fs1 : list (str * node F)) (r : objroute) (k : str) : option (list (str * node F)) :=
     match r, fget F k fs1 with
     | RSet, Some (NSub _ _ fs') => Some fs'
-    | RAppend, Some (NCfgList _ _ fs') | RSetIdx _, Some (NCfgList _ _ fs') | RInsert _, Some (NCfgList _ _ fs') => Some fs'
+    | RAppend, Some (NCfgList _ _ fs' _) | RSetIdx _, Some (NCfgList _ _ fs' _) | RInsert _, Some (NCfgList _ _ fs' _) => Some fs'
     | _, _ => None
     end.
   (* static side condition on an extended operation: a side-built object that reaches a sub-configuration slot or a list
@@ -568,7 +608,7 @@ Section WF.
         assert (Hok' : ok_fields fs').
         { unfold slot_fields in Hsl. destruct r; destruct (fget F k fs1) as [[f|d' vs' f'|r' vs' f']|] eqn:Ef; try discriminate;
             inversion Hsl; subst;
-            first [ apply (ok_node_sub d' vs'); eapply ok_fields_get; eauto | apply (ok_node_list r' vs'); eapply ok_fields_get; eauto ]. }
+            first [ apply (ok_node_sub d' vs'); eapply ok_fields_get; eauto | eapply (ok_node_list r' vs'); eapply ok_fields_get; eauto ]. }
         pose proof (detached_wf w sdyn svs fs' dops Hok' Hd) as Hdw. rewrite Ed in Hdw. exact Hdw. }
       unfold slot_fields in Hwf.
       destruct r; cbn [obj_cop obj_ok_at]; destruct (fget F k fs1) as [[f|d' vs' f'|r' vs' f']|]; try exact I; apply Hwf; reflexivity.
